@@ -279,6 +279,6 @@ def check_any(ctx, case):
 
 FAMILIES = [
     Family('unit-vectors', check_any, enumerate=enum_unit),
-    Family('shipped', check_any, strategy=lambda tier: shipped_case(), n=(2500, 40000)),
-    Family('synthetic', check_any, strategy=lambda tier: synthetic_case(), n=(1500, 30000)),
+    Family('shipped', check_any, strategy=lambda tier: shipped_case(), n=(2500, 80000)),
+    Family('synthetic', check_any, strategy=lambda tier: synthetic_case(), n=(1500, 60000)),
 ]
